@@ -52,7 +52,8 @@ NewMemo(e) == CASE e.e = "key" -> [set |-> FALSE, res |-> <<>>]
 (* ---------------- filt: with a set of seen rules the result is the full result or empty ---------------- *)
 FailsFilt(e) ==
   LET key == IF e.lang = "en" THEN <<ClearFeats(e.x, XNb), ClearFeats(e.y, XNb)>> ELSE <<e.x, e.y>>
-      member == key \in Seen(e.set)
+      \* an ad-hoc set (possibly empty) is carried by the event itself; otherwise one of the shipped sets is named
+      member == IF e.set = "adhoc" THEN key \in {<<p[1], p[2]>> : p \in Range(e.members)} ELSE key \in Seen(e.set)
       decided == e.lang = "en" \/ ~(HasVar(e.x) \/ HasVar(e.y))
   IN   If(e.res = e.full \/ e.res = <<>>, "C14.filtered_result_neither_full_nor_empty")
   \cup If((decided /\ member) => e.res = e.full, "C14.seen_pair_filtered_out")
